@@ -4,6 +4,8 @@ One request per line, fields separated by one blank, byte payloads hex-encoded.
 Answers: `ok …` / `fail <kind>` / `bad-op`.
 -/
 import CocoVerif.Model.Img
+import CocoVerif.Model.Compile
+import CocoVerif.Model.ProcBank
 
 open CocoVerif.Model
 
@@ -63,19 +65,93 @@ def handleImg (args : List String) : String :=
       | none => "bad-op"
   | _ => "bad-op"
 
-def handle (line : String) : String :=
+def unhexStr (s : String) : Option String :=
+  match unhex s with
+  | some bs => String.fromUTF8? (ByteArray.mk (bs.map UInt8.ofNat).toArray)
+  | none => none
+
+def hexStr (s : String) : String := hex (s.toUTF8.toList.map UInt8.toNat)
+
+def parseSizes (s : String) : List (String × Int) :=
+  if s.isEmpty then [] else
+  (s.splitOn ",").filterMap (fun kv => match kv.splitOn "=" with
+    | [k, v] => v.toInt?.map (fun n => (k, n))
+    | _ => none)
+
+def parseOpts (flags storage procname sizes : String) : Option Compile.Options := do
+  let f := flags.toList.map (· == '1')
+  guard (f.length == 7)
+  let st ← storage.toInt?
+  let pn ← unhexStr procname
+  let sz ← unhexStr sizes
+  pure { addStandardPrefix := f[0]!, addSuffix := f[1]!, defaultWidth32 := f[2]!,
+         filterUnusedLinenum := f[3]!, initializeVars := f[4]!, outputDependencies := f[5]!,
+         skipProcedureHeaders := f[6]!, defaultStrStorage := st, procname := pn,
+         strSizes := parseSizes sz }
+
+def handleConvAst (lib : String) (args : List String) : String :=
+  match args with
+  | [flags, storage, procname, sizes, sx] =>
+    match parseOpts flags storage procname sizes, unhexStr sx with
+    | some o, some sxText =>
+      match Sx.parse sxText with
+      | none => "bad-op sexp"
+      | some t =>
+        match Ast.progOf t with
+        | none => "bad-op ast"
+        | some p =>
+          match Compile.convertAst o p with
+          | (.ok text, procname) =>
+              (match ProcBank.finish lib text procname o.outputDependencies o.defaultStrStorage with
+               | some out => s!"ok {hexStr out}"
+               | none => "internal UnboundLocalError")
+          | (.refused k, _) => s!"refused {k}"
+          | (.internal k, _) => s!"internal {k}"
+    | _, _ => "bad-op"
+  | _ => "bad-op"
+
+def handleProcBank (args : List String) : String :=
+  match args with
+  | ["invoked", l] => match unhexStr l with
+      | some s => "ok " ++ hexStr ("\n".intercalate (ProcBank.invoked s.toList))
+      | none => "bad-op"
+  | ["header", l] => match unhexStr l with
+      | some s => "ok " ++ hexStr ((ProcBank.headerName s.toList).getD "")
+      | none => "bad-op"
+  | ["subst", st, l] => match st.toInt?, unhexStr l with
+      | some n, some s =>
+          let repl := ": STRING" ++ (if n == 32 then "" else "[" ++ toString n ++ "]")
+          "ok " ++ hexStr (String.ofList (ProcBank.substTags repl.toList s.toList))
+      | _, _ => "bad-op"
+  | ["bundle", st, name, text] => match st.toInt?, unhexStr name, unhexStr text with
+      | some n, some nm, some t =>
+          (match ProcBank.addFromStr {} t with
+           | some b => "ok " ++ hexStr (ProcBank.bundle b nm n)
+           | none => "internal UnboundLocalError")
+      | _, _, _ => "bad-op"
+  | _ => "bad-op"
+
+def handle (lib : String) (line : String) : String :=
   match (line.trimAscii.toString.splitOn " ") with
   | "img" :: args => handleImg args
+  | "convast" :: args => handleConvAst lib args
+  | "procbank" :: args => handleProcBank args
   | ["ping"] => "ok pong"
   | _ => "bad-op"
 
-partial def loop (h : IO.FS.Stream) (out : IO.FS.Stream) : IO Unit := do
+partial def loop (h : IO.FS.Stream) (out : IO.FS.Stream) (lib : String) : IO Unit := do
   let line ← h.getLine
   if line.isEmpty then return ()
-  out.putStrLn (handle line)
-  loop h out
+  match line.trimAscii.toString.splitOn " " with
+  | ["setlib", l] =>
+      let lib' := (unhexStr l).getD ""
+      out.putStrLn "ok lib"
+      loop h out lib'
+  | _ =>
+      out.putStrLn (handle lib line)
+      loop h out lib
 
 def main : IO Unit := do
   let out ← IO.getStdout
-  loop (← IO.getStdin) out
+  loop (← IO.getStdin) out ""
   out.flush
